@@ -22,7 +22,7 @@ class BuildConfiguration(dict):
         """Initialize a BuildConfiguration object."""
         super().__init__()
         try:
-            with open(input_file, "r") as fh:
+            with open(input_file, "r", encoding="utf-8") as fh:
                 self._config_data = fh.readlines()
         except FileNotFoundError as e:
             raise SystemExit(e)
